@@ -154,6 +154,22 @@ func Combine[V any](s1, s2 Seq[V]) Seq[V] {
 	}
 }
 
+// Continuable delimits the scope of continue,
+// rewrite target of the body of for stmt with post stmt containing yield
+// Continue() raised in body skips the rest of the body instead of the post stmt combined after
+func Continuable[V any](s Seq[V]) Seq[V] { return delimit(s, kContinue) }
+
+func delimit[V any](s Seq[V], kt contType) Seq[V] {
+	return func(c *co[V], k cont[V]) {
+		s(c, func(t contType, v V) {
+			if t == kt {
+				t = kNormal
+			}
+			k(t, v)
+		})
+	}
+}
+
 func seqOfK[V any](kt contType) Seq[V] {
 	return func(c *co[V], k cont[V]) {
 		k(kt, zero[V]())
